@@ -27,7 +27,11 @@ RULE = ("random sequences (1–40 ops) of every read-only operation (subscript b
 def observation(c) -> str:
     keys = ";".join(f"{impl.enums()[0].index(i)}:{'.'.join(str(impl.enums()[1].index(d)) for d in dd)}"
                     for i, dd in c.instrument_tracks.items())
-    return impl.dump_chart(c, []) + "|K " + keys
+    # also what the canonical dump abstracts from: the rendering of the whole chart and the kinds of its public containers
+    import hashlib
+    rend = hashlib.sha256((repr(c) + "\x00" + str(c) + "\x00" + repr(c.instrument_tracks)).encode("utf-8", "replace")).hexdigest()[:16]
+    kinds = type(c.instrument_tracks).__name__ + ":" + ",".join(sorted({type(dd).__name__ for dd in c.instrument_tracks.values()}))
+    return impl.dump_chart(c, []) + "|K " + keys + "|R " + rend + "|Y " + kinds
 
 
 def rand_ops(rng, c, n):
@@ -166,14 +170,14 @@ def run_case(text, ops):
     if c is None:
         return "parse-failed:" + impl.err_name(e), [], []
     obs0 = observation(c)
-    keys0 = obs0.rsplit("|K ", 1)[1]
+    keys0 = obs0.rsplit("|K ", 1)[1].split("|R ")[0]
     outs, maps = [], []
     problem = None
     for k, op in enumerate(ops):
         r = apply(c, twin, op)
         obs = observation(c)
         outs.append(r)
-        maps.append(obs.rsplit("|K ", 1)[1])
+        maps.append(obs.rsplit("|K ", 1)[1].split("|R ")[0])
         if problem is None:
             if r.startswith(("NOT-EQUAL", "ASSIGNED", "RAISED")):
                 problem = (k, op, r)
